@@ -60,7 +60,7 @@ ASSUMPTIONS = ["piece offsets inside an output section follow ref/linkspec.merge
                "absaddr32 sites are 4-aligned inside their section and live in sections aligned >= 4 (ppci asserts it)",
                "'fails with an error' = CompilerError for duplicate / undefined / overfull"]
 SHIMS_USED = ["isinstance", "int", "range", "bytes", "bytearray", "bool"]
-JOB_TIMEOUT = {"quick": 600, "thorough": 1800}
+JOB_TIMEOUT = {"quick": 900, "thorough": 3600}
 
 SEC_NAMES = ["code", "data", "bss"]
 ALIGNS = [1, 2, 4, 8, 16]
